@@ -32,6 +32,10 @@ pub struct Knobs {
     pub offprice: bool,
     #[serde(with = "hex128")]
     pub namespace: u128,
+    /// the caller keeps what it is handed (the `Arc` returned by `add_order`, listings,
+    /// snapshots) alive for the rest of the history instead of dropping it at once
+    #[serde(default)]
+    pub hold: bool,
 }
 
 pub mod hex128 {
@@ -55,6 +59,7 @@ impl Default for Knobs {
             zero: false,
             offprice: false,
             namespace: 0x6ba7b8109dad11d180b400c04fd430c8,
+            hold: false,
         }
     }
 }
@@ -111,6 +116,8 @@ struct Run<'a> {
     stamps_valid: bool,
     /// upper bound on the queue tickets issued so far (dead ones have to be skipped by a match)
     tickets_issued: u64,
+    /// handles kept alive on purpose (knob `hold`)
+    held: Vec<std::sync::Arc<Order>>,
     cancelled_once: BTreeSet<IdS>,
     // C02 ledger: supplied, traded
     ledger: BTreeMap<IdS, (i128, i128)>,
@@ -363,7 +370,12 @@ impl<'a> Run<'a> {
                 self.out.aborted_at = Some(at);
                 return;
             }
-            Ok(_) => {}
+            Ok(a) => {
+                if self.h.knobs.hold && self.held.len() < 4096 {
+                    self.held.push(a);
+                    bump(&mut self.out.probes, "handle_kept_alive");
+                }
+            }
         }
         if o.price != self.lp {
             self.all_at_level_price = false;
@@ -1113,6 +1125,7 @@ impl<'a> Run<'a> {
     fn op_read(&mut self, at: usize, k: u8) {
         let lvl = &self.level;
         let listing = self.listing.clone();
+        let keep: std::cell::RefCell<Vec<std::sync::Arc<Order>>> = std::cell::RefCell::new(vec![]);
         self.hooks.begin_op(64 * (listing.len() as u64 * 4 + 64));
         let r: Result<Result<(), String>, Fail> = guarded(|| -> Result<(), String> {
             match k % N_READS {
@@ -1121,9 +1134,11 @@ impl<'a> Run<'a> {
                     if l.len() != listing.len() {
                         return Err("iter_orders length differs from listing".into());
                     }
+                    keep.borrow_mut().extend(l);
                 }
                 1 => {
                     let s = lvl.snapshot();
+                    keep.borrow_mut().extend(s.orders.iter().cloned());
                     let l: Vec<OrderSpec> = s.orders.iter().map(|a| OrderSpec::of(a)).collect();
                     if s.price != lvl.price()
                         || s.visible_quantity as u128 != sum_vis(&l)
@@ -1175,6 +1190,9 @@ impl<'a> Run<'a> {
             Ok(())
         });
         self.hooks.end_op();
+        if self.h.knobs.hold && self.held.len() < 4096 {
+            self.held.extend(keep.into_inner());
+        }
         bump(&mut self.out.probes, "read_calls");
         match r {
             Ok(Ok(())) => {}
@@ -1529,6 +1547,7 @@ impl<'a> Exec<'a> {
             next_stamp: 0,
             stamps_valid: true,
             tickets_issued: 0,
+            held: vec![],
             cancelled_once: BTreeSet::new(),
             ledger: BTreeMap::new(),
             txids: BTreeSet::new(),
